@@ -1,0 +1,29 @@
+// SPDX-License-Identifier: Apache-2.0
+// Copyright Authors of Cilium
+
+//go:build verif
+
+package internal
+
+import "sync/atomic"
+
+type verifLockHookFunc func(event string, seq uint64)
+
+var verifLockHookFn atomic.Pointer[verifLockHookFunc]
+
+func verifLockHook(event string, seq uint64) {
+	if f := verifLockHookFn.Load(); f != nil {
+		(*f)(event, seq)
+	}
+}
+
+// VerifSetLockHook installs (or with nil removes) the callback invoked
+// around every table-lock acquisition and release of SortableMutexes.
+func VerifSetLockHook(f func(event string, seq uint64)) {
+	if f == nil {
+		verifLockHookFn.Store(nil)
+		return
+	}
+	fn := verifLockHookFunc(f)
+	verifLockHookFn.Store(&fn)
+}
